@@ -112,6 +112,7 @@ func registerMain() {
 	vrt.Quiesce()
 	check("after registration")
 	victim := nodes[vrt.Choose(nf, true, "victim")]
+	vrt.Window(true)
 	switch vrt.Choose(4, true, "disturbance") {
 	case 0:
 	case 3:
@@ -136,6 +137,7 @@ func registerMain() {
 	}
 	vrt.Sleep(23 * time.Second)
 	vrt.Quiesce()
+	vrt.Window(false)
 	check("after the disturbance")
 	for _, n := range append([]*rpcNode{leader}, nodes...) {
 		n.sd.StopMonitor()
